@@ -37,7 +37,12 @@ func sortStrings(a []string) {
 	}
 }
 
-func graphCase(issuers []int, dup bool) {
+func graphCase(issuers []int, dup bool) { graphCase2(issuers, b01(dup)) }
+
+// dup: 0 none, 1 a second file resolving to an existing alias, 2 two config files with different aliases but the same stem
+// (a.yaml / a.yml): they would share one artifact file and must be refused as well (F20)
+func graphCase2(issuers []int, dupKind int) {
+	dup := dupKind == 1
 	m := fstest.MapFS{".": &fstest.MapFile{Mode: 0777 | fs.ModeDir}}
 	t0 := time.Now().Add(-time.Hour)
 	for k, i := range issuers {
@@ -54,6 +59,10 @@ func graphCase(issuers []int, dup bool) {
 	if dup {
 		// a second file resolving to the alias e0 through an explicit alias
 		m["other/x.yaml"] = &fstest.MapFile{Data: []byte("version: 1\nalias: e0\nsubject: CN=dup\n"), Mode: 0644, ModTime: t0}
+	}
+	if dupKind == 2 {
+		m["twin/t.yaml"] = &fstest.MapFile{Data: []byte("version: 1\nalias: twin-one\nsubject: CN=twin one\n"), Mode: 0644, ModTime: t0}
+		m["twin/t.yml"] = &fstest.MapFile{Data: []byte("version: 1\nalias: twin-two\nsubject: CN=twin two\n"), Mode: 0644, ModTime: t0}
 	}
 	before := snapshot(m)
 	d := filesystem.NewFilesystemDatabase(filesystem.NewMapFs(m))
@@ -80,7 +89,7 @@ func graphCase(issuers []int, dup bool) {
 	for k, i := range issuers {
 		is[k] = fmt.Sprint(i)
 	}
-	fmt.Fprintf(out, "G %s|%d|%d\n", strings.Join(is, ","), b01(dup), opened)
+	fmt.Fprintf(out, "G %s|%d|%d\n", strings.Join(is, ","), dupKind, opened)
 }
 
 func streamGraph() {
@@ -113,4 +122,7 @@ func streamGraph() {
 	graphCase([]int{-1, 0}, true)
 	graphCase([]int{-1, 0, 1}, true)
 	graphCase([]int{-1, -1, 0, 1}, true)
+	graphCase2([]int{-1}, 2)
+	graphCase2([]int{-1, 0, 1}, 2)
+	graphCase2([]int{-1, -1, 0, 1}, 2)
 }
